@@ -27,6 +27,7 @@ import Strophe.Lemmas.HashTab
 import Strophe.Lemmas.StanzaRender
 import Strophe.Lemmas.StanzaOps
 import Strophe.Lemmas.XmlParse
+import Strophe.Lemmas.StanzaReread
 
 namespace Strophe.C09
 open Strophe Strophe.Stanza Strophe.Spec.Xml
@@ -148,9 +149,104 @@ theorem parse_render_child (name : Bytes) (attrs : Option HashTab) (ks : List Tr
       some (canon (effNs inh pattrs) (.tag name attrs ks)) :=
   parse_render_in_context name attrs ks (some pattrs) (effNs inh pattrs) hw (ctx_kid pattrs inh _)
 
+/-- without any assumption on the reader's scope: the rendering denotes `canonR`, the tree obtained by following
+    the declarations that are actually written -/
+theorem parse_render_as_written (name : Bytes) (attrs : Option HashTab) (ks : List Tree)
+    (par : Option (Option HashTab)) (scope : Option Bytes) (hw : WfTree (.tag name attrs ks)) :
+    parse scope (render par (.tag name attrs ks)) = some (canonR par scope (.tag name attrs ks)) := by
+  simp only [parse, canonR, parseRaw_render_R name attrs ks par scope hw, Option.map_some]
+
+/-- **xmlns elision preserves effective namespaces.**  Leaving out an `xmlns` equal to the parent's (or
+    jabber:client on a root) does not change what the rendering denotes, as long as it is read where the
+    namespace in scope is the one the elided declaration names (`Ctx`; always true below the root, and true for
+    a root on a jabber:client stream): the tree obtained by following the written declarations only (`canonR`)
+    is the canonical tree of the stanza tree (`canon`). -/
+theorem xmlns_elision_preserves_effective_ns (t : Tree) (par : Option (Option HashTab)) (scope : Option Bytes)
+    (hw : TabsWF t) (hc : Ctx par scope t) : canonR par scope t = canon scope t := by
+  simp only [canonR, canon, canonRawR_eq t par scope hw hc]
+
 /-- the rendering of a well-formed tree is a sequence of UTF-8 encoded XML characters -/
 theorem render_is_xml_chars (t : Tree) (par : Option (Option HashTab)) (hw : WfTree t) :
     legalChars (render par t) = true := legalChars_render t par hw
+
+/-! ### the library's own reader (`xmpp_stanza_new_from_string`, on the fragment grammar) -/
+
+/- Full-strength statement (FALSE of the model, which follows the code — known finding F2, see
+   `reread_full_strength_false` below and corpus/C09/f2_undeclared_ns.ops):
+
+     theorem reread_same_tree (name attrs ks) (hw : WfTree (.tag name attrs ks)) :
+       ∃ t', fromString (render none (.tag name attrs ks)) = some t' ∧
+         some (canon none t') = parse none (render none (.tag name attrs ks))
+
+   i.e. "the stanza the library re-reads from its own output denotes the tree an independent reader reads from
+   the same bytes".  parser_expat.c sets an `xmlns` attribute only on elements expat reports a namespace for, so
+   an element WITHOUT namespace below a namespaced ancestor (`xmlns=""`) comes back without attribute and, by the
+   renderer's own convention (no attribute = inherit), denotes an element in the ancestor's namespace. -/
+
+/-- **re-read, partial.**  What is missing for full strength: the hypothesis `NoUndecl` (the rendering does not
+    un-declare the default namespace: no `xmlns=""` below a namespaced element).  Under it the library's own
+    reader succeeds on the library's output and the tree it builds denotes exactly the tree the independent
+    reader reads from the same bytes (both, like `xmpp_stanza_new_from_string`, with no ambient namespace). -/
+theorem reread_same_tree_partial (name : Bytes) (attrs : Option HashTab) (ks : List Tree)
+    (hw : WfTree (.tag name attrs ks)) (hn : NoUndecl none none (.tag name attrs ks)) :
+    ∃ t', fromString (render none (.tag name attrs ks)) = some t' ∧
+      some (canon none t') = parse none (render none (.tag name attrs ks)) :=
+  reread_agrees name attrs ks hw hn
+
+/-- … hence, for a root that does not declare jabber:client (nothing is elided at the top), the re-read stanza
+    denotes the same canonical tree as the original -/
+theorem reread_same_canon_partial (name : Bytes) (attrs : Option HashTab) (ks : List Tree)
+    (hw : WfTree (.tag name attrs ks)) (hn : NoUndecl none none (.tag name attrs ks))
+    (hns : getAttribute (.tag name attrs ks) xmlnsKey ≠ some nsClient) :
+    ∃ t', fromString (render none (.tag name attrs ks)) = some t' ∧
+      canon none t' = canon none (.tag name attrs ks) := by
+  obtain ⟨t', e, h⟩ := reread_agrees name attrs ks hw hn
+  refine ⟨t', e, ?_⟩
+  rw [parse_render_any_ambient name attrs ks none hw hns] at h
+  exact Option.some.inj h
+
+/-- `<x xmlns="A"><y xmlns=""/></x>` -/
+def exF2 : Tree := mkTag (cs ['x']) [(xmlnsKey, cs ['A'])] [mkTag (cs ['y']) [(xmlnsKey, [])] []]
+
+/-- the witness: `exF2` is well-formed, the independent reader reads `y` in NO namespace, the library re-reads
+    its own rendering as `x{xmlns=A}[y{}]`, which renders as `<x xmlns="A"><y/></x>` and denotes `y` in namespace
+    `A` — so the full-strength statement fails exactly on the shape `NoUndecl` excludes -/
+theorem reread_full_strength_false :
+    WfTree exF2 ∧
+    parse none (render none exF2) =
+      some (.elem (some (cs ['A'])) (cs ['x']) [] [.elem none (cs ['y']) [] []]) ∧
+    (∃ t', fromString (render none exF2) = some t' ∧
+      canon none t' = .elem (some (cs ['A'])) (cs ['x']) [] [.elem (some (cs ['A'])) (cs ['y']) [] []] ∧
+      render none t' = cs ['<','x',' ','x','m','l','n','s','=','"','A','"','>','<','y','/','>','<','/','x','>']) ∧
+    ¬ NoUndecl none none exF2 := by
+  refine ⟨?_, by rfl, ⟨_, rfl, by rfl, by rfl⟩, ?_⟩
+  · exact wfTree_one _ _ _ _ (by decide) (by decide) (by decide) (by decide) (by decide) (by intro b hb; revert b; decide)
+      ⟨wfTree_one _ _ _ _ (by decide) (by decide) (by decide) (by decide) (by decide) (by intro b hb; simp at hb) trivial,
+        trivial⟩
+  · intro h
+    have : scopeOf (scopeOf none (shownAttrs none (attrsOf exF2))) (shownAttrs (some (attrsOf exF2))
+        (attrsOf (mkTag (cs ['y']) [(xmlnsKey, [])] []))) = none → scopeOf none (shownAttrs none (attrsOf exF2)) = none := by
+      have := h.2.1.1
+      exact this
+    have h1 : scopeOf (scopeOf none (shownAttrs none (attrsOf exF2))) (shownAttrs (some (attrsOf exF2))
+        (attrsOf (mkTag (cs ['y']) [(xmlnsKey, [])] []))) = none := by rfl
+    have h2 : scopeOf none (shownAttrs none (attrsOf exF2)) = some (cs ['A']) := by rfl
+    rw [h2] at this
+    exact absurd (this h1) (by simp)
+
+/-- the full-strength statement instantiated at `exF2` is false -/
+theorem reread_same_tree_fails_on_exF2 :
+    ¬ ∃ t', fromString (render none exF2) = some t' ∧ some (canon none t') = parse none (render none exF2) := by
+  rintro ⟨t', e, h⟩
+  have e0 : fromString (render none exF2) = some (ofXNode (canonRawR none none exF2)) := by rfl
+  rw [e0] at e
+  cases e
+  have h1 : canon none (ofXNode (canonRawR none none exF2)) =
+      .elem (some (cs ['A'])) (cs ['x']) [] [.elem (some (cs ['A'])) (cs ['y']) [] []] := by rfl
+  have h2 : parse none (render none exF2) =
+      some (.elem (some (cs ['A'])) (cs ['x']) [] [.elem none (cs ['y']) [] []]) := by rfl
+  rw [h1, h2] at h
+  simp at h
 
 /-! ### copies are deep and independent -/
 
@@ -158,6 +254,11 @@ theorem render_is_xml_chars (t : Tree) (par : Option (Option HashTab)) (hw : WfT
     every depth, again satisfying the invariant -/
 theorem copy_deep (t : Tree) (hw : TabsWF t) : ∃ t', copy t = some t' ∧ SameTree t t' ∧ TabsWF t' :=
   copy_spec t hw
+
+/-- … and it denotes the same canonical XML tree, wherever it is placed (the attribute ORDER of a copy can differ:
+    `_stanza_copy_attributes` re-inserts into a fresh table) -/
+theorem copy_same_tree (t : Tree) (inh : Option Bytes) (hw : TabsWF t) :
+    ∃ t', copy t = some t' ∧ canon inh t' = canon inh t := copy_canon t inh hw
 
 /-- Independence: after `vw := copy(v…)`, whatever is done to the tree in `w` (any mutator `f`, at any node)
     leaves `v` as it was, and whatever is done to `v` leaves the copy in `w` as it was.  In the model trees are
